@@ -160,6 +160,15 @@ QB_OPS = {
     "groupby:f0": lambda r: r.groupby(A(T.Field("g0"))).orderby(A(T.Field("o0"))),
     "insert": lambda r: r.insert(3, 4),
     "insert:rows": lambda r: r.insert((1, 2), (3, 4)),
+    # rows holding terms that refer to tables (replace_table has to rewrite them - in new rows, not in place)
+    "insert:sub": lambda r: r.insert(A(Query.from_(Table("t")).select(FN.Max(Table("t").a))), A(Table("u").x + 1)),
+    # explicit ValueWrapper objects handed to calls that take values (the caller's object must stay what it is)
+    "groupby:vw": lambda r: r.groupby(A(T.ValueWrapper(5))),
+    "orderby:vw": lambda r: r.orderby(A(T.ValueWrapper(6))),
+    "select:vw": lambda r: r.select(A(T.ValueWrapper(7)), A(T.ValueWrapper("s", alias="sv"))),
+    "insert:vw": lambda r: r.insert(A(T.ValueWrapper(8)), A(T.ValueWrapper("w"))),
+    "set:vw": lambda r: r.set("c", A(T.ValueWrapper(9))),
+    "limit:vw": lambda r: r.limit(A(T.ValueWrapper(4))).offset(A(T.ValueWrapper(2))),
     "replace": lambda r: r.replace(5, 6),
     "on_conflict": lambda r: r.on_conflict("k"),
     "on_conflict:f": lambda r: r.on_conflict(A(t_().k2)),
@@ -330,7 +339,7 @@ def chunks(tier, seed):
                 d = fam[3:]
                 if d in QUICK_LIGHT and sname not in QUICK_LIGHT[d]:
                     continue
-                if sname in ("sel_lits", "upd_lits"):
+                if sname in ("sel_lits", "upd_lits", "sel_shared"):
                     continue  # constant-wrapping seeds: thorough tier, and the C02 / C15 corpora
             keys = list(ops)
             if not keys:
@@ -381,6 +390,13 @@ def expand(chunk):
     seeds, ops = FAM[fam]
     keys = list(ops)
     if chunk["depth"] == 2:
+        if chunk.get("tier") == "quick":
+            # quick: argument-variant ops (duplicates, redefinitions, table-less fields, explicit wrappers, ...) are paired with
+            # every base op in both orders, not with each other (thorough: all pairs)
+            def variant(k):
+                return k.endswith((":dup", ":redef", ":f0", ":vw", ":of_dup")) or k in ("insert:sub", "columns:f", "replace_table:v", "replace_table:u")
+            if variant(k1):
+                keys = [k for k in keys if not variant(k) or k == k1]
         # histories with renders in between (every live object observed after every call)
         yield {"fam": fam, "seed": sname, "ops": [k1], "shape": [0], "rend": True}
         rend_pairs = not fam.startswith("qb:") or (chunk.get("tier") == "thorough" and fam in ("qb:generic", "qb:postgresql", "qb:mysql"))
